@@ -34,8 +34,8 @@ const (
 )
 
 func TestMain(m *testing.M) {
-	vlib.Rule("C14: a topology with one volume layout (1-2 volumes, 1-3 replicas each, replication 1-3 copies, replicationAsMin on/off, master-side read-only flags) whose data nodes are in-process gRPC volume-server fakes scripted per replica and phase (check above/below/error, compact ok/error, commit ok/error/ok+readOnly, cleanup ok/error; errors as application errors or as 'transport' errors that drop the cached connection). TestPropVacuumScriptsExhaustive enumerates the full product of per-replica scripts (quick: 1-2 replicas in full plus every distinct reachable projection for 3 replicas; thorough: the full 36^n product for n=1..3); TestPropVacuumInitialStatesExhaustive crosses every reachable script with the initial states (missing / surplus replica, replicationAsMin, read-only replica); TestPropVacuumRounds samples multi-volume, multi-round sequences with heartbeats in between. Non-trivial = a round in which at least one replica received a compact RPC and (the volume has >=2 replicas or some RPC of the round answered with an error / read-only).")
-	vlib.Assume("C14: volume servers are fakes that answer immediately from a script; the minutes-long RPC wait timeouts of the vacuum batches (1-3 min x volumeSizeLimit) are never reached, so the 'timeout' outcome of the quantifier is not explored. Replica content is not modelled in the scripted tier: 'same live content' is reduced to the RPC-history invariants (commit only after that replica's own successful compact of the same round; every compacted replica is committed or cleaned up). Volumes are below the size limit (a vacuum legitimately re-offers a shrunk volume).")
+	vlib.Rule("C14: a topology with one volume layout (1-2 volumes, 1-3 replicas each, replication 1-3 copies, replicationAsMin on/off, master-side read-only flags) whose data nodes are in-process gRPC volume-server fakes scripted per replica and phase (check above/below/error, compact ok/error, commit ok/error/ok+readOnly, cleanup ok/error; errors as application errors or as 'transport' errors that drop the cached connection). TestPropVacuumScriptsExhaustive enumerates the full product of per-replica scripts (quick: 1-2 replicas in full plus every distinct reachable projection for 3 replicas; thorough: the full 36^n product for n=1..3); TestPropVacuumInitialStatesExhaustive crosses every reachable script with the initial states (missing / surplus replica, replicationAsMin, read-only replica); TestPropVacuumRounds samples multi-volume, multi-round sequences with heartbeats in between; TestPropVacuumRealStores puts real storage.Store volumes (generated content with garbage) behind the fakes, with errors injected before or after the real compact/commit and client writes/deletes arriving in the middle of the round, and compares every replica with the clients' model afterwards. Non-trivial = a round in which at least one replica received a compact RPC and (the volume has >=2 replicas or some RPC of the round answered with an error / read-only).")
+	vlib.Assume("C14: volume servers are fakes that answer immediately from a script; the minutes-long RPC wait timeouts of the vacuum batches (1-3 min x volumeSizeLimit) are never reached, so the 'timeout' outcome of the quantifier is not explored. Replica content is not modelled in the scripted tiers (only in TestPropVacuumRealStores): there 'same live content' is reduced to the RPC-history invariants (commit only after that replica's own successful compact of the same round; every compacted replica is committed or cleaned up). Volumes are below the size limit (a vacuum legitimately re-offers a shrunk volume).")
 	vlib.Assume("C14: 'writable had no vacuum been attempted' is the membership in the layout's writable list before the first round, except that a replica answering commit with IsReadOnly=true makes 'not writable' the expected state (the master has learnt that a replica is read-only).")
 	quietGlog()
 	vlib.Main(m)
@@ -272,7 +272,10 @@ func (w *world) judge(v volSpec, evs []event) verdict {
 		}
 	}
 	if !layoutRO && nCheck < len(v.replicas) && nCheck > 0 {
-		w.t.Fatalf("INCONCLUSIVE: only %d of %d check RPCs of volume %d reached the fakes\ncase: %s\nhistory: %s", nCheck, len(v.replicas), v.vid, w.sp, strings.Join(w.trace, "\n"))
+		// a check RPC that failed in the transport (the shared cached connection was just
+		// dropped by an injected "transport is closing") never reaches the fake; for the
+		// master this is a failed check like any other, so the round's invariants still apply
+		vlib.Class("check-rpc-lost-in-transport")
 	}
 
 	class := "checked-only"
@@ -321,6 +324,9 @@ func (w *world) judge(v volSpec, evs []event) verdict {
 		w.taint[v.vid] = key
 		vlib.Excluded(key)
 	} else {
+		if w.taint[v.vid] != "" {
+			vlib.Class("re-offered-by-a-later-successful-round")
+		}
 		w.taint[v.vid] = ""
 	}
 	return verdict{class: class, nontrivial: nCompact > 0 && (len(v.replicas) >= 2 || anyFault)}
@@ -507,7 +513,7 @@ func genScript(t *rapid.T, label string, allowRO bool) repScript {
 }
 
 func TestPropVacuumRounds(t *testing.T) {
-	vlib.Check(t, 300, 3000, func(t *rapid.T) {
+	vlib.Check(t, 600, 6000, func(t *rapid.T) {
 		sp := spec{
 			copies:    rapid.IntRange(1, 3).Draw(t, "copies"),
 			asMin:     rapid.Bool().Draw(t, "asMin"),
